@@ -23,6 +23,7 @@ import (
 	"github.com/alibaba/sentinel-golang/core/base"
 	"github.com/alibaba/sentinel-golang/logging"
 	"github.com/alibaba/sentinel-golang/util"
+	"github.com/alibaba/sentinel-golang/util/vhook"
 	"github.com/pkg/errors"
 )
 
@@ -191,7 +192,9 @@ func (la *LeapArray) currentBucketOfTime(now uint64, bg BucketGenerator) (*Bucke
 	bucketStart := calculateStartTime(now, la.bucketLengthInMs)
 
 	for { //spin to get the current BucketWrap
+		vhook.Yield(101)
 		old := la.array.get(idx)
+		vhook.Yield(102)
 		if old == nil {
 			// because la.array.data had initiated when new la.array
 			// theoretically, here is not reachable
@@ -210,8 +213,10 @@ func (la *LeapArray) currentBucketOfTime(now uint64, bg BucketGenerator) (*Bucke
 		} else if bucketStart > atomic.LoadUint64(&old.BucketStart) {
 			// current time has been next cycle of LeapArray and LeapArray dont't count in last cycle.
 			// reset BucketWrap
+			vhook.Yield(103)
 			if la.updateLock.TryLock() {
 				old = bg.ResetBucketTo(old, bucketStart)
+				vhook.Yield(104)
 				la.updateLock.Unlock()
 				return old, nil
 			} else {
@@ -245,6 +250,7 @@ func (la *LeapArray) valuesWithTime(now uint64) []*BucketWrap {
 	}
 	ret := make([]*BucketWrap, 0, la.array.length)
 	for i := 0; i < la.array.length; i++ {
+		vhook.Yield(105)
 		ww := la.array.get(i)
 		if ww == nil || la.isBucketDeprecated(now, ww) {
 			continue
@@ -262,6 +268,7 @@ func (la *LeapArray) ValuesConditional(now uint64, predicate base.TimePredicate)
 	}
 	ret := make([]*BucketWrap, 0, la.array.length)
 	for i := 0; i < la.array.length; i++ {
+		vhook.Yield(105)
 		ww := la.array.get(i)
 		if ww == nil || la.isBucketDeprecated(now, ww) || !predicate(atomic.LoadUint64(&ww.BucketStart)) {
 			continue
@@ -273,6 +280,7 @@ func (la *LeapArray) ValuesConditional(now uint64, predicate base.TimePredicate)
 
 // isBucketDeprecated checks whether the BucketWrap is expired, according to given timestamp.
 func (la *LeapArray) isBucketDeprecated(now uint64, ww *BucketWrap) bool {
+	vhook.Yield(106)
 	ws := atomic.LoadUint64(&ww.BucketStart)
 	return (now - ws) > uint64(la.intervalInMs)
 }
